@@ -212,7 +212,8 @@ def delimited_rows(delimited_source, data_format):
         try:
             for row in delimited_reader:
                 yield row
-        except (csv.Error, UnicodeDecodeError) as error:
+        except (csv.Error, UnicodeError) as error:
+            # NOTE: UnicodeError also covers for example UTF-16 data without byte order mark.
             _raise_delimited_data_format_error(delimited_source, delimited_reader, error)
     finally:
         if has_opened_delimited_stream:
@@ -461,7 +462,7 @@ def fixed_rows(fixed_source, encoding, field_name_and_lengths, line_delimiter="a
             if len(row) > 0:
                 yield row
                 location.advance_line()
-    except UnicodeDecodeError as error:
+    except UnicodeError as error:
         raise errors.DataFormatError("cannot decode fixed data: %s" % error, location)
     finally:
         if is_opened:
